@@ -9,22 +9,25 @@ import (
 	"bytes"
 	"encoding/json"
 	"fmt"
+	"github.com/siglens/siglens/pkg/segment/reader/metrics/series"
+	"github.com/siglens/siglens/pkg/segment/reader/microreader"
 	"math"
 	"os"
 	"os/exec"
 	"path/filepath"
 	"sort"
 	"strings"
+	"sync"
 	"time"
 
 	jp "github.com/buger/jsonparser"
 	"github.com/klauspost/compress/zstd"
 	"github.com/siglens/siglens/pkg/config"
 	"github.com/siglens/siglens/pkg/segment/memory/limit"
-	sutils "github.com/siglens/siglens/pkg/segment/utils"
-	"github.com/siglens/siglens/pkg/segment/writer/metrics/meta"
 	"github.com/siglens/siglens/pkg/segment/structs"
+	sutils "github.com/siglens/siglens/pkg/segment/utils"
 	"github.com/siglens/siglens/pkg/segment/writer/metrics"
+	"github.com/siglens/siglens/pkg/segment/writer/metrics/meta"
 	"github.com/siglens/siglens/pkg/segment/writer/metrics/wal"
 	log "github.com/sirupsen/logrus"
 
@@ -241,6 +244,10 @@ func main() {
 		walWorker(os.Args[2:])
 		return
 	}
+	if len(os.Args) > 1 && os.Args[1] == "recoverworker" {
+		recoverWorker(os.Args[2:])
+		return
+	}
 	if len(os.Args) > 1 && os.Args[1] == "rewriteworker" {
 		rewriteWorker(os.Args[2:])
 		return
@@ -296,7 +303,22 @@ func walWorker(args []string) {
 	if err := meta.InitMetricsMeta(); err != nil {
 		os.Exit(3)
 	}
+	rotAt := -1
+	if len(args) > 4 {
+		fmt.Sscanf(args[4], "%d", &rotAt)
+	}
 	for i := 0; i < n; i++ {
+		if i == rotAt {
+			// a size-based rotation of the BLOCK only: the segment stays open, later datapoints go to block 1
+			old := sutils.MAX_BYTES_METRICS_BLOCK
+			sutils.MAX_BYTES_METRICS_BLOCK = 1
+			for _, mSeg := range metrics.GetAllMetricsSegments() {
+				if err := mSeg.CheckAndRotate(false); err != nil {
+					os.Exit(5)
+				}
+			}
+			sutils.MAX_BYTES_METRICS_BLOCK = old
+		}
 		th := metrics.GetTagsHolder()
 		th.Insert("host", []byte("h1"), jp.String)
 		if err := metrics.EncodeDatapoint([]byte("walm"), th, float64(i), uint32(1700000000+i), 40, 0); err != nil {
@@ -306,19 +328,109 @@ func walWorker(args []string) {
 	os.Exit(0) // abrupt end: nothing is flushed or rotated; only completed WAL appends are on disk
 }
 
+// recoverworker <dir> <out.json>: the start-up replay (RecoverWALData) in a fresh process on the directory of a
+// crashed worker, then every block file under the metrics directory is read back through the real block readers and the
+// block summaries (<segkey>.mbsu, through which queries find blocks) are compared with what the blocks hold.
+type recBlock struct {
+	Seg    string    `json:"seg"`
+	Blk    uint16    `json:"blk"`
+	T      []uint32  `json:"t"`
+	V      []float64 `json:"v"`
+	Listed []string  `json:"listed"`
+	Cover  bool      `json:"cover"`
+	Err    string    `json:"err,omitempty"`
+}
+
+func recoverWorker(args []string) {
+	dir, of := args[0], args[1]
+	c := config.GetTestConfig(dir + "/")
+	c.SSInstanceName = "test"
+	config.SetConfig(c)
+	if err := config.InitDerivedConfig("test"); err != nil {
+		os.Exit(3)
+	}
+	limit.InitMemoryLimiter()
+	metrics.InitTestingConfig()
+	if err := meta.InitMetricsMeta(); err != nil {
+		os.Exit(3)
+	}
+	metrics.RecoverWALData()
+	th := metrics.GetTagsHolder()
+	th.Insert("host", []byte("h1"), jp.String)
+	tsid, err := th.GetTSID([]byte("walm"))
+	if err != nil {
+		os.Exit(4)
+	}
+	var out []recBlock
+	qm := &structs.MetricsQueryProcessingMetrics{UpdateLock: &sync.Mutex{}}
+	_ = filepath.Walk(dir, func(p string, info os.FileInfo, err error) error {
+		if err != nil || info.IsDir() || !strings.HasSuffix(p, ".tso") {
+			return nil
+		}
+		base := strings.TrimSuffix(p, ".tso")
+		i := strings.LastIndex(base, "_")
+		segKey := base[:i]
+		var blk uint16
+		fmt.Sscanf(base[i+1:], "%d", &blk)
+		rb := recBlock{Seg: filepath.Base(segKey), Blk: blk}
+		tssr, err := series.InitTimeSeriesReader(segKey)
+		if err != nil {
+			rb.Err = err.Error()
+			out = append(out, rb)
+			return nil
+		}
+		defer tssr.Close()
+		tsbr, err := tssr.InitReaderForBlock(blk, qm)
+		if err != nil {
+			rb.Err = err.Error()
+			out = append(out, rb)
+			return nil
+		}
+		itr, found, err := tsbr.GetTimeSeriesIterator(tsid)
+		if err != nil {
+			rb.Err = err.Error()
+		} else if found {
+			for itr.Next() {
+				t, v := itr.At()
+				rb.T, rb.V = append(rb.T, t), append(rb.V, v)
+			}
+		}
+		sums, err := microreader.ReadMetricsBlockSummaries(segKey + ".mbsu")
+		if err != nil {
+			rb.Err += " block summaries: " + err.Error()
+		}
+		for _, bs := range sums {
+			rb.Listed = append(rb.Listed, fmt.Sprintf("%d:[%d,%d]", bs.Blknum, bs.LowTs, bs.HighTs))
+			if len(rb.T) > 0 && bs.Blknum == blk && bs.LowTs <= rb.T[0] && bs.HighTs >= rb.T[len(rb.T)-1] {
+				rb.Cover = true
+			}
+		}
+		out = append(out, rb)
+		return nil
+	})
+	ob, _ := json.Marshal(out)
+	_ = os.WriteFile(of, ob, 0o644)
+	os.Exit(0)
+}
+
 func walIngestCrash(cfg vhlib.Config, sum *vhlib.Summary, r *vhlib.Rng) {
 	self, _ := os.Executable()
-	type sc struct{ n, fs, mx int }
-	scs := []sc{{450, 100, 512}, {130, 50, 4096}, {1000, 50, 300}}
+	type sc struct{ n, fs, mx, rot int }
+	scs := []sc{{450, 100, 512, -1}, {130, 50, 4096, 60}, {1000, 50, 300, -1}, {420, 100, 100000, 250}}
 	if cfg.Thorough() {
 		for i := 0; i < 12; i++ {
-			scs = append(scs, sc{r.Range(60, 2500), vhlib.Pick(r, []int{20, 50, 100}), vhlib.Pick(r, []int{200, 512, 2048, 100000})})
+			n := r.Range(60, 2500)
+			rot := -1
+			if i%2 == 0 {
+				rot = r.Range(1, n-1)
+			}
+			scs = append(scs, sc{n, vhlib.Pick(r, []int{20, 50, 100}), vhlib.Pick(r, []int{200, 512, 2048, 100000}), rot})
 		}
 	}
 	for si, c := range scs {
 		dir, _ := filepath.Abs(filepath.Join(cfg.Out, fmt.Sprintf("walcrash_%d", si)))
 		_ = os.MkdirAll(dir, 0o755)
-		cmd := exec.Command(self, "worker", dir, fmt.Sprint(c.n), fmt.Sprint(c.fs), fmt.Sprint(c.mx))
+		cmd := exec.Command(self, "worker", dir, fmt.Sprint(c.n), fmt.Sprint(c.fs), fmt.Sprint(c.mx), fmt.Sprint(c.rot))
 		if out, err := cmd.CombinedOutput(); err != nil {
 			sum.HarnessError(fmt.Sprintf("wal worker: %v %s", err, string(out)))
 			continue
@@ -359,16 +471,22 @@ func walIngestCrash(cfg vhlib.Config, sum *vhlib.Summary, r *vhlib.Rng) {
 		sum.Count(fmt.Sprintf("walcrash/files=%d", nfiles))
 		// completed appends: every full buffer of fs datapoints was appended before the next datapoint was accepted
 		// (the 1 s timer may have appended more): replay must be a PREFIX of the ingested sequence of at least that length
-		minLen := ((c.n - 1) / c.fs) * c.fs
-		ok := len(replay) >= minLen && len(replay) <= c.n
+		// with a block rotation after rot datapoints the first rot are in the rotated block (its WAL files are gone),
+		// the WAL of the open block starts at datapoint rot
+		off := 0
+		if c.rot > 0 {
+			off = c.rot
+		}
+		minLen := ((c.n - off - 1) / c.fs) * c.fs
+		ok := len(replay) >= minLen && len(replay) <= c.n-off
 		for i := 0; ok && i < len(replay); i++ {
-			ok = replay[i].Timestamp == uint32(1700000000+i) && replay[i].DpVal == float64(i)
+			ok = replay[i].Timestamp == uint32(1700000000+off+i) && replay[i].DpVal == float64(off+i)
 		}
 		cs := map[string]interface{}{"datapoints": c.n, "wal_block_flush_size": c.fs, "max_wal_file_bytes": c.mx, "wal_files": nfiles, "replayed": len(replay)}
 		if !ok {
 			first := -1
 			for i := range replay {
-				if replay[i].Timestamp != uint32(1700000000+i) {
+				if replay[i].Timestamp != uint32(1700000000+off+i) {
 					first = i
 					break
 				}
@@ -381,6 +499,51 @@ func walIngestCrash(cfg vhlib.Config, sum *vhlib.Summary, r *vhlib.Rng) {
 				c.n, c.fs, c.mx, nfiles, len(replay), first, minLen), cs)
 		}
 		sum.Sample(cs)
+		// ---- the real start-up replay on the same directory: what is in the block files afterwards, and is it findable ----
+		of := filepath.Join(dir, "recovered.json")
+		rc := exec.Command(self, "recoverworker", dir, of)
+		if out, err := rc.CombinedOutput(); err != nil {
+			sum.Fail("wal_recovery_process_failed", fmt.Sprintf("RecoverWALData on the directory of the crashed worker: %v %s", err, string(out)), cs)
+			continue
+		}
+		var blocks []recBlock
+		ob, _ := os.ReadFile(of)
+		_ = json.Unmarshal(ob, &blocks)
+		sort.Slice(blocks, func(a, b int) bool {
+			if blocks[a].Seg != blocks[b].Seg {
+				return blocks[a].Seg < blocks[b].Seg
+			}
+			return blocks[a].Blk < blocks[b].Blk
+		})
+		var onDisk []uint32
+		vOK := true
+		for _, b := range blocks {
+			if b.Err != "" {
+				sum.Fail("wal_recovered_block_unreadable", fmt.Sprintf("segment %s block %d after RecoverWALData: %s", b.Seg, b.Blk, b.Err), cs)
+			}
+			for i, t := range b.T {
+				onDisk = append(onDisk, t)
+				if b.V[i] != float64(int(t)-1700000000) {
+					vOK = false
+				}
+			}
+			if len(b.T) > 0 && !b.Cover {
+				sum.Fail("wal_recovered_block_not_listed_in_block_summaries", fmt.Sprintf("%d datapoints ingested, block rotation after %d, process ended, RecoverWALData: block %d of segment %s holds %d datapoints [%d,%d] but the segment's block summaries (through which queries find blocks) list %v",
+					c.n, c.rot, b.Blk, b.Seg, len(b.T), b.T[0], b.T[len(b.T)-1], b.Listed), cs)
+			}
+		}
+		sort.Slice(onDisk, func(a, b int) bool { return onDisk[a] < onDisk[b] })
+		want := off + len(replay) // the rotated block + the completed appends of the open block's WAL
+		good := vOK && len(onDisk) == want
+		for i := 0; good && i < len(onDisk); i++ {
+			good = onDisk[i] == uint32(1700000000+i)
+		}
+		sum.Eval(fmt.Sprintf("walrecover/%d", si), true)
+		sum.Count("walrecover/histories")
+		if !good {
+			sum.Fail("wal_recovery_blocks_not_completed_prefix", fmt.Sprintf("%d datapoints ingested (block rotation after %d), process ended with %d datapoints in the WAL files; after RecoverWALData the block files hold %d datapoints (values intact: %v), expected exactly the first %d",
+				c.n, c.rot, len(replay), len(onDisk), vOK, want), cs)
+		}
 	}
 }
 
